@@ -2266,7 +2266,7 @@ func runC19(c *core.Ctx) {
 	}
 
 	// random trees
-	nRand := c.N(2500, 40000)
+	nRand := c.N(4000, 150000)
 	for i := 0; i < nRand; i++ {
 		t := g.tree(1+c.Rng.Intn(5), c.Rng.Intn(3) == 0)
 		runEncodeCase(c, t, fmt.Sprintf("encode/random/%c", t.Kind))
@@ -2301,7 +2301,7 @@ func runC19(c *core.Ctx) {
 	}
 
 	// files
-	nFiles := c.N(260, 3000)
+	nFiles := c.N(400, 10000)
 	for i := 0; i < nFiles; i++ {
 		var s *sch
 		if c.Rng.Intn(8) == 0 {
